@@ -86,7 +86,9 @@ def build(tier, seed):
     tasks = []
     for (mi, k), g in sorted(groups.items()):
         for i in range(0, len(g), BATCH):
-            for twin in (False, True):
+            for twin in (False, "ugly", "leading-blank", "trailing-blank", "no-eof-newline"):
+                if twin not in (False, "ugly") and (k not in ("create-list", "grow-list", "fix-str-quotes") or MODES[mi]["preview"]):
+                    continue
                 tasks.append({"cases": g[i : i + BATCH], "twin": twin})
     return tasks
 
@@ -104,7 +106,8 @@ def _judge(cases, twin):
     src = "from inline_snapshot import snapshot\n\n\n" + HELP + "\n\n".join(site(i, c["k"], c["n"]) for i, c in enumerate(cases))
     src = black.format_str(src, mode=mode)
     if twin:
-        src = src + "\n\nUGLY = [1,2,  3]\n"
+        src = {"ugly": src + "\n\nUGLY = [1,2,  3]\n", "leading-blank": "\n\n" + src, "trailing-blank": src + "\n\n\n",
+               "no-eof-newline": src.rstrip("\n")}[twin if isinstance(twin, str) else "ugly"]
         assert black.format_str(src, mode=mode) != src
     ctx = {"src": src}
     n = len(cases)
@@ -160,7 +163,7 @@ def run_task(task):
                 continue
         if ctx.get("changed"):
             out["nontrivial"].append(repr(sorted(c.items())))
-        lab = "ok:" + ("twin" if twin else "clean") + (":unstable-formatter" if ctx.get("unstable") else "")
+        lab = "ok:" + (("twin-" + str(twin)) if twin else "clean") + (":unstable-formatter" if ctx.get("unstable") else "")
         out["outcomes"][lab] = out["outcomes"].get(lab, 0) + 1
     if ctx.get("unstable"):
         out["extra"]["formatter_instability_files"] = 1
